@@ -205,9 +205,8 @@ theorem applyRes_termOk (cfg : Cfg) (pol : Policy) (step : Nat) (tickEv : Ev) (d
     split
     · apply termOk_append _ _ h
       simp [termOk, Cmd.isExit]
-    · apply termOk_append _ _ h
-      simp [termOk, Cmd.isExit]
-    · split
+    all_goals
+      split
       · split
         · apply termOk_append _ _ h
           simp [termOk, Cmd.isExit]
